@@ -5,6 +5,8 @@ import RtcVerif.Proofs.C04Validate
 import RtcVerif.Proofs.C04Store
 import RtcVerif.Proofs.C04Rows
 import RtcVerif.Proofs.C04Elem
+import RtcVerif.Proofs.C04Code
+import RtcVerif.Proofs.C04Inputs
 import Mathlib.Algebra.Order.Field.Basic
 import Mathlib.Tactic.Linarith
 import Mathlib.Tactic.Ring
@@ -394,5 +396,193 @@ theorem C04_critical_disjoint_witness :
     soft-to-hard conversion `[0, 3]`: the entry ends as `[2, 3] ⊆ (-inf, 8]` -/
 example : applyOps (critEntry (some (⟨EVal.fin 2, EVal.pinf⟩ : EIvl)) ⟨EVal.ninf, EVal.fin 8⟩)
     [(⟨EVal.fin 0, EVal.fin 3⟩, false)] = ⟨EVal.fin 2, EVal.fin 3⟩ := by decide
+
+/-! ## the source, as translated on every run (`Gen/GoalCode.lean` = the references below)
+
+`harness/translate_c04.py` (`gen_goal_code`) re-generates `validateGen`, `minArrGen` / `maxArrGen`,
+`softRowsGen`, … from `goal_programming_mixin_base.py` on every run and proves them equal to the code-level
+references `validateRef`, `minArrRef` / `maxArrRef`, `softRowsRef`, … of `Model/C04Code.lean`.  The theorems of
+this section connect those references to the model every theorem above is about. -/
+
+/-- **`_gp_validate_goals`, as written, is `validate`**: the chain of checks in source order (nesting of the
+    `if` statements, NaN masks in front of the comparisons, the function-key walk) raises exactly the error
+    the model returns, for path and non-path goals and all option values. -/
+theorem C04_validate_code_is_model (o : Opts) (isPath : Bool) (nTimes : Nat) (goals : List Goal) :
+    validateRef o isPath nTimes goals = validate o isPath nTimes goals :=
+  validateRef_eq o isPath nTimes goals
+
+/-- hence the code accepts exactly the well-formed goal sets -/
+theorem C04_validate_code_sound_complete (o : Opts) (isPath : Bool) (nTimes : Nat) (goals : List Goal)
+    (hshape : ∀ g ∈ goals, g.ShapeOK) :
+    validateRef o isPath nTimes goals = none ↔ WellFormed o isPath nTimes goals := by
+  rw [validateRef_eq]
+  exact C04_validate_sound_complete o isPath nTimes goals hshape
+
+example : validateRef {} true 3
+    [{ fk := "k", tmin := .scalar (.fin 2), rangeLo := [.fin (-10)], rangeHi := [.fin 10],
+       rangeDefault := false }] = none := by decide
+example : validateRef {} true 2
+    [{ fk := "k", tmin := .series [[.fin 2, .nan]], tmax := .series [[.fin 1, .fin 0]],
+       rangeLo := [.fin (-10)], rangeHi := [.fin 10], rangeDefault := false }] = some .minGtMax := by decide
+
+/-- **`_gp_min_max_arrays` reads the target entry the model reads.**  For every target kind, with or without
+    `target_shape`, for scalar and vector goals: whenever the method passes its own shape assertions
+    (`… = some v`), entry (component `c`, step `i`) of the returned lower / upper array is `Target.at`.
+    (`hv`: an ndarray target of length one is read at component 0 only.) -/
+theorem C04_min_max_code_reads_target (path gt1 : Bool) (tmin tmax : Target) (c i : Nat)
+    (hv : ∀ t, t = tmin ∨ t = tmax → ∀ vs, t = .vector vs → vs.length = 1 → c = 0) :
+    (∀ v, minArrRef path gt1 tmin tmax c i = some v → v = tmin.at c i) ∧
+    (∀ v, maxArrRef path gt1 tmin tmax c i = some v → v = tmax.at c i) :=
+  ⟨fun v h => minArrRef_reads path gt1 tmin tmax c i v h (hv tmin (Or.inl rfl)),
+   fun v h => maxArrRef_reads path gt1 tmin tmax c i v h (hv tmax (Or.inr rfl))⟩
+
+/-- the combinations the validation lets through pass the shape assertions: scalar targets always, 1-D
+    Timeseries targets on path goals, ndarray / 2-D Timeseries targets on vector goals -/
+theorem C04_min_max_code_defined (path gt1 : Bool) (tmin tmax : Target) (c i : Nat)
+    (hmin : (∃ x, tmin = .scalar x) ∨ (∃ col, tmin = .series [col] ∧ path = true) ∨
+         ((∃ vs, tmin = .vector vs) ∧ gt1 = true) ∨ ((∃ cols, tmin = .series cols) ∧ path = true ∧ gt1 = true))
+    (hmax : (∃ x, tmax = .scalar x) ∨ (∃ col, tmax = .series [col] ∧ path = true) ∨
+         ((∃ vs, tmax = .vector vs) ∧ gt1 = true) ∨ ((∃ cols, tmax = .series cols) ∧ path = true ∧ gt1 = true)) :
+    (minArrRef path gt1 tmin tmax c i).isSome = true ∧ (maxArrRef path gt1 tmin tmax c i).isSome = true :=
+  ⟨minArrRef_defined path gt1 tmin tmax c i hmin, maxArrRef_defined path gt1 tmin tmax c i hmax⟩
+
+example : minArrRef true true (.series [[.fin 1, .nan], [.fin 3, .fin 4]]) (.vector [.fin 7, .pinf]) 1 0 = some (.fin 3)
+    ∧ maxArrRef true true (.series [[.fin 1, .nan], [.fin 3, .fin 4]]) (.vector [.fin 7, .pinf]) 1 0 = some .pinf := by
+  decide
+
+/-- steps a Timeseries target does not cover get the fills `-inf` / `+inf` of the interpolation: such a step is
+    never finite (it is skipped by the range checks, not counted in `n_active`), and its soft row is the
+    constant `0` -/
+theorem C04_target_fill_inactive (f eps b nom : Rat) :
+    (minFillRef.1.isFinite = false ∧ minFillRef.2.isFinite = false ∧
+      maxFillRef.1.isFinite = false ∧ maxFillRef.2.isFinite = false) ∧
+    softRow (sentinelMin true minFillRef.1) f eps b nom = 0 ∧
+    softRow (sentinelMax true maxFillRef.1) f eps b nom = 0 :=
+  ⟨⟨rfl, rfl, rfl, rfl⟩, (C04_inactive_steps_free true minFillRef.1 rfl f eps b nom).1,
+    (C04_inactive_steps_free true maxFillRef.1 rfl f eps b nom).2⟩
+
+/-- **the soft-constraint construction of `_gp_goal_constraints`, as written, is `softRows`**: sentinel
+    constants per target kind, slice indices of vector goals, the `if_else` expression of
+    `_soft_constraint_func`, the two `_GoalConstraint` rows per side with their bounds. -/
+theorem C04_soft_rows_code_is_model (g : Goal) (n : Nat) (fs eps : List (List Rat)) :
+    softRowsRef g n fs eps = softRows g n fs eps :=
+  softRowsRef_eq g n fs eps
+
+/-- the pieces: constants, slice indices, expression -/
+theorem C04_soft_pieces_code_is_model (g : Goal) (n c i : Nat) (t : XVal) (f e b nom : Rat) :
+    minConstRef g c i = g.minSym c i ∧ maxConstRef g c i = g.maxSym c i ∧
+    keepMinRef g n c = g.keepMin n c ∧ keepMaxRef g n c = g.keepMax n c ∧
+    softExprRef t f e b nom = softRow t f e b nom :=
+  ⟨minConstRef_eq g c i, maxConstRef_eq g c i, keepMinRef_eq g n c, keepMaxRef_eq g n c,
+   softExprRef_eq t f e b nom⟩
+
+/-- the envelope, stated for the rows the code builds -/
+theorem C04_envelope_rows_code (g : Goal) (n : Nat) (fs eps : List (List Rat))
+    (hrows : ∀ r ∈ softRowsRef g n fs eps, r.lb ≤ EVal.fin r.val ∧ EVal.fin r.val ≤ r.ub)
+    (c i : Nat) (hc : c < g.size) (hi : i < n) (hnom : 0 < g.nomAt c) :
+    (∀ tm lo, g.hasMin = true → g.mAt c i = XVal.e (EVal.fin tm) → qabs tm < floatMax →
+        g.loAt c = XVal.e (EVal.fin lo) → tm + getF eps c i * (lo - tm) ≤ getF fs c i) ∧
+    (∀ tM hi', g.hasMax = true → g.MAt c i = XVal.e (EVal.fin tM) → qabs tM < floatMax →
+        g.hiAt c = XVal.e (EVal.fin hi') → getF fs c i ≤ tM + getF eps c i * (hi' - tM)) := by
+  rw [softRowsRef_eq] at hrows
+  exact C04_envelope_rows g n fs eps hrows c i hc hi hnom
+
+example : ∀ r ∈ softRowsRef { fk := "k", tmin := .series [[.fin 2, .nan]], rangeLo := [.fin (-10)],
+                              rangeHi := [.fin 10], rangeDefault := false, nominal := [2] }
+      2 [[3, 4]] [[1/2, 0]], r.lb ≤ EVal.fin r.val ∧ EVal.fin r.val ≤ r.ub := by
+  decide +kernel
+
+/-- `n_active` (the divisor of a target goal's objective term): at least one — no division by zero when
+    every step is inactive —, one unless a path goal is scaled by problem size, never more than the number of
+    steps; it counts exactly the steps with a finite lower or upper target, i.e. the steps where
+    `C04_inactive_steps_free` does not make both rows void.  The violation variable has one entry per
+    component. -/
+theorem C04_n_active_code (g : Goal) (isPath scale : Bool) (n c : Nat) :
+    1 ≤ nActiveRef g isPath scale n c ∧ nActiveRef g isPath scale n c ≤ max n 1 ∧
+    ((isPath && scale) = false → nActiveRef g isPath scale n c = 1) ∧
+    nActiveRef g true true n c =
+      max ((List.range n).filter fun i => (g.mAt c i).isFinite || (g.MAt c i).isFinite).length 1 ∧
+    epsSizeRef g = g.size := by
+  have hlen : ((List.range n).filter fun i => (g.mAt c i).isFinite || (g.MAt c i).isFinite).length ≤ n := by
+    have := List.length_filter_le (fun i => (g.mAt c i).isFinite || (g.MAt c i).isFinite) (List.range n)
+    simpa using this
+  refine ⟨?_, ?_, ?_, rfl, rfl⟩
+  · unfold nActiveRef; split <;> omega
+  · unfold nActiveRef; split <;> omega
+  · intro h; unfold nActiveRef; simp [h]
+
+example : nActiveRef { fk := "k", tmin := .series [[.fin 2, .nan, .ninf]] } true true 3 0 = 1
+    ∧ nActiveRef { fk := "k", tmin := .series [[.fin 2, .nan, .fin 1]] } true true 3 0 = 2 := by decide
+
+/-- **critical goals, as the code builds them**: every member `m < E` gets exactly one hard constraint, in its own
+    slot, built from its own member index, with `epsilon = 0` at every step (the value
+    `C04_critical_mask_code_is_model` is stated for) and no existing constraint. -/
+theorem C04_critical_calls_code (E : Nat) (isPath : Bool) (nTimes : Nat) :
+    (critCallsRef E isPath nTimes).length = E ∧
+    (∀ m < E, (m, m, (0 : Rat), (if isPath then nTimes else 1), true) ∈ critCallsRef E isPath nTimes) ∧
+    (∀ x ∈ critCallsRef E isPath nTimes, x.1 = x.2.1 ∧ x.2.2.1 = 0 ∧ x.2.2.2.2 = true) := by
+  refine ⟨by simp [critCallsRef], ?_, ?_⟩
+  · intro m hm
+    simp only [critCallsRef, List.mem_map, List.mem_range]
+    exact ⟨m, hm, rfl⟩
+  · intro x hx
+    simp only [critCallsRef, List.mem_map, List.mem_range] at hx
+    obtain ⟨m, _, rfl⟩ := hx
+    exact ⟨rfl, rfl, rfl⟩
+
+example : critCallsRef 2 true 4 = [(0, 0, 0, 4, true), (1, 1, 0, 4, true)] := by decide
+
+/-- **the `Goal` properties the mixin branches on, as written, are the model's**: `has_target_min` /
+    `has_target_max` (`Target.has`), `has_target_bounds`, `is_empty` (decides which goals form a priority). -/
+theorem C04_goal_properties_code_is_model (g : Goal) :
+    hasMinRef g = g.hasMin ∧ hasMaxRef g = g.hasMax ∧ hasTargetBoundsRef g = g.hasTargetBounds ∧
+    isEmptyRef g = g.isEmpty :=
+  ⟨hasMinRef_eq g, hasMaxRef_eq g, rfl, isEmptyRef_eq g⟩
+
+example : isEmptyRef { fk := "k", tmin := .series [[.nan, .ninf]] } = true
+    ∧ isEmptyRef { fk := "k", tmin := .series [[.nan, .fin 1]] } = false
+    ∧ isEmptyRef { fk := "k" } = false := by decide
+
+/-! ### how the registered constants reach the problem (`constant_inputs()` / `parameters()`) -/
+
+/-- **The soft rows read the target that is registered now.**  After one call of the overridden
+    `constant_inputs()` / `parameters()` (`inputsCallRef`; `Gen/GoalCode.lean` proves the four methods equal to it
+    on every run), a name registered by the current priority reads the value registered LAST under it —
+    whatever the dictionary returned by `super()` already held (a parent that caches one dictionary per member
+    hands back the entries written for earlier priorities or by an earlier `optimize()` call). -/
+theorem C04_target_constants_reach_problem {V : Type} (conv : V → V) (remember : Bool)
+    (origKeys : Option (List String)) (d : Dict V) (pending : List (String × V)) (name : String) (t : V)
+    (hlast : pending.reverse.find? (fun kv => kv.1 == name) = some (name, t)) :
+    dictGet (inputsCallRef conv remember origKeys d pending).2 name = some (conv t) := by
+  rw [inputsCall_reads, hlast]
+
+/-- names written by earlier priorities that are no longer registered are removed (multi-pass mixin), the
+    parent's own entries are untouched -/
+theorem C04_stale_constants_removed {V : Type} (conv : V → V) (origKeys : Option (List String)) (d : Dict V)
+    (pending : List (String × V)) (name : String)
+    (hnot : pending.reverse.find? (fun kv => kv.1 == name) = none) :
+    (name ∉ (inputsCallRef conv true origKeys d pending).1 →
+        dictGet (inputsCallRef conv true origKeys d pending).2 name = none) ∧
+    (name ∈ (inputsCallRef conv true origKeys d pending).1 →
+        dictGet (inputsCallRef conv true origKeys d pending).2 name = dictGet d name) := by
+  rw [inputsCall_reads, hnot]
+  constructor <;> intro h <;> simp [h]
+
+/-- the Timeseries a path-goal constant is converted to carries the target's entries: cell (component, step)
+    of the constant input is the cell `Target.at` the soft row model reads -/
+theorem C04_path_constant_cells (n : Nat) (t : Target) (c i : Nat) (hi : i < n)
+    (hc : ∀ vs, t = .vector vs → c < vs.length) : (constConv n t).at c i = t.at c i :=
+  constConv_at n t c i hi hc
+
+/-- non-vacuity (the scenario of a cached parent dictionary): the dictionary still holds the target series of an
+    earlier `optimize()` call under the same name and a stale name of an earlier priority; the call returns the
+    new series and drops the stale name -/
+example :
+    let r := inputsCallRef (constConv 2) true (some ["c"])
+      [("c", .series [[.fin 1, .fin 1]]), ("path_min_0_0", .series [[.fin 5, .fin 5]]), ("path_max_1_0", .scalar (.fin 9))]
+      [("path_min_0_0", .scalar (.fin 7))]
+    dictGet r.2 "path_min_0_0" = some (.series [[.fin 7, .fin 7]]) ∧ dictGet r.2 "path_max_1_0" = none ∧
+      dictGet r.2 "c" = some (.series [[.fin 1, .fin 1]]) := by
+  decide
 
 end RtcVerif.C04
